@@ -44,6 +44,17 @@ def env():
     return _env
 
 
+_env_falsy = None
+
+
+def env_falsy():
+    """Same flags, undefined=FalsyStrictUndefined: documented to behave like the default undefined in conditions and comparisons."""
+    global _env_falsy
+    if _env_falsy is None:
+        _env_falsy = drv.make_env({"flags": FLAGS, "undefined": "falsy_strict"})
+    return _env_falsy
+
+
 VALUES: list[Any] = [
     0, 1, -1, 2, 0.0, 1.0, 1.5, Decimal("1"), Decimal("1.5"), True, False, None,
     "", " ", "a", "b", "1", "abc", "true",
@@ -132,6 +143,37 @@ def judge(ctx: core.Ctx, case: dict[str, Any]) -> None:
                 parts.append(t)
         src = wrap(case["ctx"], " ".join(parts).replace("( ", "(").replace(" )", ")"))
         sig_tail = "logical-grouping"
+    elif k == "chain":
+        # if / unless with elsif branches and an optional else: the first truthy condition wins, whatever its block prints (nothing at all,
+        # whitespace only, text); later conditions and the else block are then out of the picture
+        names = []
+        for i, c in enumerate(case["conds"]):
+            if c.get("t") == "undef":
+                names.append(f"nosuch{i}")
+            else:
+                data[f"c{i}"] = V.dec(c["v"])
+                names.append(f"c{i}")
+        truth = [M.truthy(model_operand(c)) for c in case["conds"]]
+        if case["head"] == "unless":
+            truth[0] = not truth[0]
+        bodies = case["bodies"]
+        chosen = next((bodies[i] for i, t in enumerate(truth) if t), case.get("else") or "")
+        exp_text = chosen
+        src = "{% " + case["head"] + " " + names[0] + " %}" + bodies[0]
+        for i in range(1, len(names)):
+            src += "{% elsif " + names[i] + " %}" + bodies[i]
+        if case.get("else") is not None:
+            src += "{% else %}" + case["else"]
+        src = "[" + src + "{% end" + case["head"] + " %}]"
+        o = drv.parse_and_render(env_falsy() if case.get("falsy_undef") else env(), src, data, use_async=case.get("async", False))
+        got = o.value if o.ok else f"raised {o.err_class}"
+        ctx.count("branch_chains_judged")
+        if got != "[" + exp_text + "]":
+            ctx.evaluations += 1
+            ctx.violation("branch-chain:" + case["head"] + (":async" if case.get("async") else ""), f"{src!r} with {data!r:.160} gave {got!r}, R-cond says {'[' + exp_text + ']'!r}", {"source": src, "data": V.enc(data)})
+            return
+        ctx.ok((case,), nontrivial=True)
+        return
     elif k == "nestcase":
         # case inside a when block of another case, each with its own subject
         vals = {n: model_operand(v) for n, v in case["vals"].items()}
@@ -183,14 +225,18 @@ def judge(ctx: core.Ctx, case: dict[str, Any]) -> None:
     else:
         raise ValueError(k)
 
+    the_env = env_falsy() if case.get("falsy_undef") else env()
+    if case.get("falsy_undef"):
+        ctx.count("judged_with_falsy_strict_undefined")
+        sig_tail += ":FalsyStrictUndefined"
     if exp is M.UNSPEC:
         ctx.unspecified(sig_tail.split(":")[0])
         # still executed for crash containment (non-Liquid errors are C02's subject)
-        o = drv.parse_and_render(env(), src, data)
+        o = drv.parse_and_render(the_env, src, data)
         if not o.ok and not o.is_liquid_error:
             ctx.count("non_liquid_error_forwarded_to_C02")
         return
-    o = drv.parse_and_render(env(), src, data, use_async=case.get("async", False))
+    o = drv.parse_and_render(the_env, src, data, use_async=case.get("async", False))
     if o.ok:
         got: Any = {"T": True, "F": False}.get(o.value, o.value)
     elif o.err_class == "LiquidTypeError":
@@ -303,9 +349,22 @@ def gen_nestcase(rng) -> dict[str, Any]:
     return {"kind": "nestcase", "vals": vals, "spec": case_spec(0), "async": rng.random() < 0.3}
 
 
+CHAIN_CONDS: list[dict[str, Any]] = [{"t": "val", "v": V.enc(v)} for v in (True, False, None, 0, "", "a", [], 0.0)] + [{"t": "undef"}]
+CHAIN_BODIES = ["", "", "B", "x y"]  # empty or visible (what a whitespace-only block prints is C10's subject, not this property's)
+
+
+def chain_cases(rng, n: int):
+    for _ in range(n):
+        k = rng.randint(2, 4)
+        conds = [rng.choice(CHAIN_CONDS) for _ in range(k)]
+        yield {"kind": "chain", "head": rng.choice(["if", "if", "unless"]), "conds": conds, "bodies": [rng.choice(CHAIN_BODIES) if rng.random() < 0.6 else f"<{i}>" for i in range(k)],
+               "else": rng.choice([None, "E", "", "<else>"]), "async": rng.random() < 0.5, "falsy_undef": rng.random() < 0.2}
+
+
 def cases(ctx: core.Ctx):
     rng = ctx.rng("cases")
     idx = 0
+    yield from chain_cases(rng, ctx.budget(2500, 160_000))
     for _ in range(ctx.budget(1500, 100_000)):
         yield gen_nestcase(rng)
     # truthiness
@@ -315,6 +374,8 @@ def cases(ctx: core.Ctx):
                 idx += 1
                 if idx % ctx.nshards == ctx.shard:
                     yield {"kind": "truthy", "ctx": c, "a": o, "alit": lit}
+                    if o["t"] == "undef":
+                        yield {"kind": "truthy", "ctx": c, "a": o, "alit": lit, "falsy_undef": True, "async": lit}
     # operator grid (exhaustive)
     for op, a, b in itertools.product(OPS, OPERANDS, OPERANDS):
         idx += 1
@@ -330,6 +391,8 @@ def cases(ctx: core.Ctx):
         for c in cs:
             for alit, blit in forms:
                 yield {"kind": "cmp", "ctx": c, "op": op, "a": a, "b": b, "alit": alit, "blit": blit, "async": (idx % 7 == 0)}
+                if "undef" in (a["t"], b["t"]):
+                    yield {"kind": "cmp", "ctx": c, "op": op, "a": a, "b": b, "alit": alit, "blit": blit, "async": (idx % 3 == 0), "falsy_undef": True}
     ctx.extra["exhaustive"] = True
     ctx.extra["operand_lattice_size"] = len(OPERANDS)
     # depth 4 is not enumerable (trees(4) is ~1e10 candidate shapes and stalled every thorough shard): the thorough tier takes more depth-3 shapes instead
